@@ -9,7 +9,12 @@ def run(prop, tier, seed, only=None):
     if only:
         names = [n for n in names if n in only]
     d = libcheck.trace_dir(prop)
-    jobs = [(n, ["-m", "harness.lib.adapt_drive", n, tier, str(seed)], os.path.join(d, f"adapt-{n}-{tier}-{seed}.ndjson"))
+    from harness.lib import sched
+
+    hist_file = os.path.join(d, f"histories-{tier}-{seed}.json")
+    if not os.path.exists(hist_file):      # HIST: seed/reset/step call histories enumerated by TLC from MC_Adapters
+        sched.tlc_call_histories(7, 8 if tier == "quick" else 60, seed, hist_file)
+    jobs = [(n, ["-m", "harness.lib.adapt_drive", n, tier, str(seed), hist_file], os.path.join(d, f"adapt-{n}-{tier}-{seed}.ndjson"))
             for n in names]
     mcs = [("MC_Adapters", "MC_Adapters_quick.cfg", 600)]
     if tier == "thorough":
